@@ -695,6 +695,11 @@ func builtinAppend(i *Interpreter, args []Expr, env *Environment) (interface{}, 
 	if err != nil {
 		return nil, err
 	}
+	// Cap the slice at its length so that append always copies into a new
+	// backing array: with spare capacity it would write the item into storage
+	// shared with arr, and a later append to the same array would overwrite
+	// the last element of this result.
+	arr = arr[:len(arr):len(arr)]
 	return append(arr, item), nil
 }
 
